@@ -16,21 +16,56 @@ class ExtractError(Exception):
     pass
 
 
+_MOD_ENV = {}      # module base name -> {NAME: value} of its module-level constant assignments
+_TREE_MOD = {}     # id(tree) -> module base name
+_CUR = [None]      # module whose names an unqualified Name refers to
+
+
 def _parse(rel):
     path = os.path.join(REPO, 'src', rel)
     try:
-        return ast.parse(open(path).read(), filename=path)
+        tree = ast.parse(open(path).read(), filename=path)
     except (OSError, SyntaxError) as err:
         raise ExtractError('%s: %s' % (rel, err))
+    mod = os.path.splitext(os.path.basename(rel))[0]
+    key = rel
+    _TREE_MOD[id(tree)] = key
+    env = {}
+    _MOD_ENV[key] = env
+    _MOD_ENV.setdefault(mod, env)
+    # module-level named constants (NAME = <constant expression>), in order, best effort
+    prev = _CUR[0]
+    _CUR[0] = key
+    try:
+        for st in tree.body:
+            if isinstance(st, ast.Assign) and len(st.targets) == 1 and isinstance(st.targets[0], ast.Name):
+                try:
+                    env[st.targets[0].id] = _const(st.value)
+                except ExtractError:
+                    pass
+    finally:
+        _CUR[0] = prev
+    return tree
+
+
+def _use(tree):
+    ''' unqualified names in the expressions evaluated next belong to this module '''
+    _CUR[0] = _TREE_MOD.get(id(tree))
 
 
 def _const(node, env=None):
-    ''' Evaluate a constant integer/str expression (literals, + - * ** | << , int(...), names in env). '''
+    ''' Evaluate a constant integer/str expression (literals, + - * ** | << , int(...), names in env,
+    module-level named constants of the module being read, `module.NAME` of another parsed module). '''
     env = env or {}
     if isinstance(node, ast.Constant):
         return node.value
     if isinstance(node, ast.Name) and node.id in env:
         return env[node.id]
+    if isinstance(node, ast.Name) and node.id in _MOD_ENV.get(_CUR[0], {}):
+        return _MOD_ENV[_CUR[0]][node.id]
+    if isinstance(node, ast.Attribute) and isinstance(node.value, ast.Name) \
+            and node.attr in _MOD_ENV.get(node.value.id, {}):
+        return _MOD_ENV[node.value.id][node.attr]
     if isinstance(node, ast.UnaryOp) and isinstance(node.op, ast.USub):
         return -_const(node.operand, env)
     if isinstance(node, ast.BinOp):
@@ -44,6 +79,13 @@ def _const(node, env=None):
                 return f()
     if isinstance(node, ast.Call) and isinstance(node.func, ast.Name) and node.func.id == 'int' and len(node.args) == 1:
         return int(_const(node.args[0], env))
+    if isinstance(node, ast.Call) and isinstance(node.func, ast.Name) and node.func.id == 'len' and len(node.args) == 1 \
+            and not node.keywords:
+        return len(_const(node.args[0], env))
+    if isinstance(node, ast.BinOp) and isinstance(node.op, (ast.BitAnd, ast.RShift, ast.Mod)):
+        a = _const(node.left, env)
+        b = _const(node.right, env)
+        return a & b if isinstance(node.op, ast.BitAnd) else (a >> b if isinstance(node.op, ast.RShift) else a % b)
     raise ExtractError('unsupported constant expression: %s' % ast.dump(node)[:200])
 
 
@@ -59,6 +101,7 @@ def _name(node):
 
 def enums(tree):
     ''' {QualifiedClass: {member: int}} for every enum class (nested ones qualified by outer class). '''
+    _use(tree)
     out = {}
 
     def visit(body, prefix):
@@ -82,10 +125,11 @@ def enums(tree):
 
 def bind_layers(tree):
     ''' [(lower, upper, {field: value})] for packet.bind_layers(...) calls and bind_type/bind_extension decorators '''
+    _use(tree)
     out = []
     for node in ast.walk(tree):
         if isinstance(node, ast.Call) and _name(node.func).endswith('bind_layers') and len(node.args) >= 2:
-            if any(isinstance(k.value, ast.Name) for k in node.keywords):
+            if any(isinstance(k.value, ast.Name) and k.value.id not in _MOD_ENV.get(_CUR[0], {}) for k in node.keywords):
                 continue  # generic helper (bind_type/bind_extension body); decorators are read below
             kw = {k.arg: _const(k.value) for k in node.keywords}
             out.append((_name(node.args[0]), _name(node.args[1]), kw))
@@ -98,6 +142,7 @@ def bind_layers(tree):
 
 def dbus_sigs(tree):
     ''' {Class.func: (kind, in_sig, out_sig|signature)} '''
+    _use(tree)
     out = {}
     for cls in [n for n in ast.walk(tree) if isinstance(n, ast.ClassDef)]:
         for fn in cls.body:
@@ -121,6 +166,7 @@ def dbus_sigs(tree):
 
 def chain_steps(tree):
     ''' [(chain, order, name, action)] from rx_chain.append(ChainStep(order=, name=, action=self._x)) '''
+    _use(tree)
     out = []
     for node in ast.walk(tree):
         if (isinstance(node, ast.Call) and isinstance(node.func, ast.Attribute) and node.func.attr == 'append'
@@ -136,6 +182,7 @@ def chain_steps(tree):
 
 def fields_desc(tree):
     ''' {Class: [(FieldClass, name, detail)]} — the fields_desc list/tuple of every class. '''
+    _use(tree)
     out = {}
     for cls in [n for n in ast.walk(tree) if isinstance(n, ast.ClassDef)]:
         for st in cls.body:
@@ -185,6 +232,7 @@ def _cond(node):
 
 def assigns(tree, wanted):
     ''' Pick `name = const` assignments anywhere (first match wins): {name: value} '''
+    _use(tree)
     out = {}
     for node in ast.walk(tree):
         if isinstance(node, ast.Assign) and len(node.targets) == 1:
@@ -203,6 +251,7 @@ def assigns(tree, wanted):
 
 def crc_defs(tree):
     ''' CRC_DEFN: {CrcType member: (crcmod name, struct format)} '''
+    _use(tree)
     out = {}
     for node in ast.walk(tree):
         if isinstance(node, ast.Assign) and _name(node.targets[0]) == 'CRC_DEFN':
